@@ -5,7 +5,7 @@
 use crate::verif_prelude::*;
 use crate::function::memo::MemoHeader;
 use crate::revision::AtomicRevision;
-use crate::zalsa_local::{OriginAndExtra, QueryRevisions, QueryRevisionsExtra};
+use crate::zalsa_local::{OriginAndExtra, QueryOriginRef, QueryRevisions, QueryRevisionsExtra};
 use crate::Durability;
 
 /// The salsa struct a `VFn` is keyed by: backed by a page-backed `VIn` input value.
@@ -147,4 +147,76 @@ pub(crate) fn header_of(verified_at: usize, revisions: QueryRevisions) -> MemoHe
         verified_at: AtomicRevision::from(Revision::from(verified_at)),
         revisions,
     }
+}
+
+// ---------------------------------------------------------------------------------------------
+// C23-O4: a replaced memo stays alive until the next exclusive borrow
+// ---------------------------------------------------------------------------------------------
+
+// @verif prop=C23,C05 obl=O4 tier=thorough bounds="one memo of VFn attached to a page-backed struct, replaced once; the old memo symbolic: value present or evicted, final or provisional, origin Derived/DerivedUntracked/Assigned, symbolic stamps"
+// @+ encodes="function::IngredientImpl::<VFn>::insert_memo, IngredientImpl::insert_memo_into_table_for, MemoTableWithTypes::insert, DeletedEntries::push, IngredientImpl::get_memo_from_table_for, IngredientImpl::reset_for_new_revision, DeletedEntries::clear, SharedBox::drop"
+/// C23-O4: when a result is replaced while the database is only shared-borrowed, the old memo (to which `fetch` may have
+/// handed out references, and which `execute` itself still reads for backdating and output diffing) is parked, not freed:
+/// it stays readable and unchanged — whatever its state (also when its value was evicted) — and is freed exactly once
+/// when the ingredient is next borrowed exclusively (`reset_for_new_revision`). CBMC's pointer checks decide the
+/// "still readable" and "freed once" parts.
+#[kani::proof]
+#[kani::unwind(5)]
+#[kani::stub(real_catch_unwind, stub_catch_unwind)]
+#[kani::stub(crate::sync::max_parallelism, crate::interned::verif::stub_max_parallelism)]
+fn c23_o4_replaced_memo_stays_alive() {
+    use crate::input::verif::alloc_vin_with_types;
+    use crate::table::memo::{MemoEntryType, MemoTableTypes};
+    let (mut zalsa, revs) = crate::zalsa::verif::any_zalsa();
+    let now = revs[0];
+    let idx = MemoIngredientIndex::from_usize(0);
+    let mut types = MemoTableTypes::default();
+    types.set(idx, MemoEntryType::of::<Memo<VFn>>());
+    let id = alloc_vin_with_types(&zalsa, [Revision::start(); 2], [Durability::LOW; 2], Arc::new(types));
+    let mut ing = IngredientImpl::<VFn>::new(IngredientIndex::new(3), VMemoMap, 0);
+    let old_val: Option<u32> = if kani::any() { Some(kani::any()) } else { None };
+    let old_final: bool = kani::any();
+    let old_changed: usize = kani::any();
+    kani::assume(1 <= old_changed && old_changed <= now);
+    let shape = any_origin_shape();
+    let old = memo::Memo::<VFn> {
+        header: header_of(now, revisions_of(old_changed, any_durability(), origin_of(shape), old_final)),
+        value: old_val,
+    };
+    let old_ref: &memo::Memo<VFn> = ing.insert_memo(&zalsa, id, old, idx);
+    let old_ptr = old_ref as *const memo::Memo<VFn>;
+    let new_val: u32 = kani::any();
+    let new = memo::Memo::<VFn> {
+        header: header_of(now, revisions_of(now, Durability::LOW, origin_of(OriginShape::Derived), true)),
+        value: Some(new_val),
+    };
+    let new_ref = ing.insert_memo(&zalsa, id, new, idx);
+    assert!(new_ref.value == Some(new_val));
+    match ing.get_memo_from_table_for(&zalsa, id, idx) {
+        Some(m) => { assert!(std::ptr::eq(m, new_ref), "C23: the memo table does not hold the newly inserted memo") }
+        None => panic!("C23: inserted memo not found"),
+    }
+    // the replaced memo must still be readable and unchanged (a freed box would fail CBMC's
+    // "deallocated dynamic object" check on these reads)
+    // SAFETY: this is the property under test; the allocation must still be live.
+    let old_again = unsafe { &*old_ptr };
+    assert!(old_again.value == old_val, "C23: a replaced memo changed while references to it may exist");
+    assert!(old_again.header.revisions.changed_at.as_usize() == old_changed);
+    assert!(old_again.header.may_be_provisional() == !old_final);
+    match (shape, old_again.header.origin()) {
+        (OriginShape::Derived, QueryOriginRef::Derived(_)) => {}
+        (OriginShape::Untracked, QueryOriginRef::DerivedUntracked(_)) => {}
+        (OriginShape::Assigned, QueryOriginRef::Assigned(_)) => {}
+        _ => panic!("C23: a replaced memo's origin was clobbered"),
+    }
+    kani::cover!(old_val.is_none() && old_final);
+    kani::cover!(old_val.is_some() && !old_final);
+    // exclusive borrow: parked memos are freed now, exactly once
+    ing.reset_for_new_revision(zalsa.table_mut());
+    match ing.get_memo_from_table_for(&zalsa, id, idx) {
+        Some(m) => { assert!(m.value == Some(new_val), "C23: the live memo was freed or altered by the revision reset") }
+        None => panic!("C23: live memo lost at the revision reset"),
+    }
+    std::mem::forget(ing);
+    std::mem::forget(zalsa);
 }
